@@ -536,6 +536,10 @@ class FileIndex(Index):
                                       == set(segment.deleted_docs())):
                     del reusable[segment]
                     r._gen = generation
+                    # The recycled reader now belongs to this generation: it
+                    # must see this generation's fields (a commit may have
+                    # added or removed fields), like a newly opened one
+                    r.schema = schema
                     return r
                 else:
                     r = SegmentReader(storage, schema, segment,
